@@ -263,18 +263,30 @@ impl Monitor for C05 {
 			}
 		}
 		// strings that fill their field completely up to the last allowed byte
+		let mut unterminated = false;
 		if len >= 700 && rng.chance(1, 3) {
 			let p = rng.below(4);
 			for i in 0..28 {
 				st[so::SLIPPI_UID + 29 * p + i] = b'a' + (i % 26) as u8;
 			}
-			st[so::SLIPPI_UID + 29 * p + 28] = 0;
+			// one time in two the terminator is missing as well: the value is then the first 28 bytes
+			if rng.chance(1, 2) {
+				st[so::SLIPPI_UID + 29 * p + 28] = b'#';
+				unterminated = true;
+			} else {
+				st[so::SLIPPI_UID + 29 * p + 28] = 0;
+			}
 		}
 		if len >= 760 && rng.chance(1, 3) {
 			for i in 0..50 {
 				st[so::MATCH_ID + i] = b'A' + (i % 26) as u8;
 			}
-			st[so::MATCH_ID + 50] = 0;
+			if rng.chance(1, 2) {
+				st[so::MATCH_ID + 50] = b'#';
+				unterminated = true;
+			} else {
+				st[so::MATCH_ID + 50] = 0;
+			}
 		}
 		// every 9th case plants ONE value outside the valid set in a byte the reader validates
 		// (UCF toggle, language, end method, LRAS initiator, placement): the reader must either
@@ -333,11 +345,21 @@ impl Monitor for C05 {
 				out.class("planted-invalid-value|rejected".to_string());
 				return out;
 			}
+			Err(common::Fail::Err(_)) if unterminated => {
+				// a string field without its terminator is outside the spec: refusing the block is
+				// a legitimate answer; only an accepted block is judged (content = first 28 / 50 bytes)
+				out.count("unterminated_string_rejected", 1);
+				out.class("unterminated-string|rejected".to_string());
+				return out;
+			}
 			Err(f) => {
 				out.violate(format!("read-failed;{}", f.sig()), format!("{}: {}", desc, f.text()), Some(&built.bytes));
 				return out;
 			}
 		};
+		if unterminated {
+			out.class("unterminated-string|accepted".to_string());
+		}
 		if let Some(pl) = &planted {
 			// accepted: then every field must still equal the oracle's rendering, which shows the
 			// planted value as "<invalid>" - i.e. acceptance is only right if the reader has a way to
